@@ -72,10 +72,13 @@ def check(ctx, replay=None):
     cmdfam.make_fake_go(fakedir, listing_chunks())
     created = []
 
-    def fresh_binary(tag):
+    # ProfCache!tempOK: with a binary name of 242 characters the cache file's name still fits NAME_MAX, the temporary file's does not
+    LONG = "t" * 242
+
+    def fresh_binary(tag, base="target"):
         bdir = os.path.join(d, "bin_%s" % tag)
         os.makedirs(bdir, exist_ok=True)
-        b = os.path.join(bdir, "target")
+        b = os.path.join(bdir, base)
         shutil.copy(os.path.join(d, "probetarget"), b)
         created.append(cmdfam.cache_path(b))
         return b
@@ -90,11 +93,13 @@ def check(ctx, replay=None):
         # first-run fates from the specification: every disassembler failure point and every kill point, tool missing, clean
         fates = ["ok", "missing"] + ["fail_after_%d" % i for i in range(NCHUNKS + 1)] + ["kill_after_%d" % i for i in range(NCHUNKS + 1)]
         reps = 8 if th else 1
-        for fate in fates:
-            for rebuilt in (False, True):
+        plan = [(fate, rebuilt, "target") for fate in fates for rebuilt in (False, True)]
+        plan += [(fate, False, LONG) for fate in ["ok", "missing", "fail_after_1"] + ["kill_after_%d" % i for i in range(NCHUNKS + 1)]]
+        for fate, rebuilt, base in plan:
+            if True:
                 for rep in range(reps):
-                    tag = "%s_%d_%d" % (fate, rebuilt, rep)
-                    b = fresh_binary(tag)
+                    tag = "%s_%d_%d_%d" % (fate, rebuilt, rep, len(base))
+                    b = fresh_binary(tag, base)
                     cmdfam.set_mode(fakedir, fate if fate != "missing" else "ok")
                     first = run_profiler(d, fakedir, b, with_go=(fate != "missing"))
                     if first is None:
@@ -123,9 +128,9 @@ def check(ctx, replay=None):
                             # the statement constrains the NEXT run only: recorded, not a verdict
                             ctx.note("the disassembler failed (%s) but the profiler exited with status 0 and a profile of %s" % (fate, first["names"]))
                     if second["rc"] == 0 and sorted(second["names"]) != sorted(want):
-                        ctx.violation("after a first run with fate '%s'%s the next run printed the profile %s; a cold-cache run gives %s"
-                                      % (fate, " and a rebuilt binary" if rebuilt else "", second["names"], want),
-                                      {"fate": fate, "rebuilt": rebuilt, "first_run": first, "cache_after_first_run": disk, "second_run": second, "cold_profile": want,
+                        ctx.violation("after a first run with fate '%s'%s%s the next run printed the profile %s; a cold-cache run gives %s"
+                                      % (fate, " and a rebuilt binary" if rebuilt else "", " (binary name of %d characters)" % len(base) if base != "target" else "", second["names"], want),
+                                      {"fate": fate, "rebuilt": rebuilt, "binary_name_length": len(base), "first_run": first, "cache_after_first_run": disk, "second_run": second, "cold_profile": want,
                                        "admissible": "the cold-cache profile, or an error", "how": "./check C17 quick"})
                     if len(ctx.cov["samples"]) < 3 and fate.startswith("kill"):
                         ctx.sample({"fate": fate, "rebuilt": rebuilt, "first_rc": first["rc"], "cache_after_first_run": disk, "second_used_cache": second["cached"], "second_profile": second["names"]})
